@@ -41,6 +41,7 @@ def run(ctx):
     ctx.log("values judged")
     badm = p3.judge(ctx, "Arrays", consts, cases_file, rf, env={**env, "PASS": "marks"}, op="JudgeMarks", tag="marks")
 
+    ctx.log("marker set judged")
     kinds: dict[str, int] = {}
     for c in cases:
         kinds[c["k"]] = kinds.get(c["k"], 0) + 1
